@@ -29,7 +29,8 @@ CHECKS = {
              "(no path to Showdown::new except through clearing the guarding flag); the flop is blocked by the showdown "
              "constructor's board test; probability = 1.0 times every chosen weight; board order b0..b4 with b3=deck[turn], b4=deck[river]; "
              "mixed-radix odometer: bound idx+1<len, +=1, scan over all players from the last one stopping at the first hit, suffix reset "
-             "(advanced+1)..len on every path after an advance, whole reset with every (turn, river) advance. "
+             "(advanced+1)..len on every path after an advance, whole reset with every (turn, river) advance, the position advanced only "
+             "behind the scan for a player with room (and behind its None outcome where the outcome is an Option). "
              "That these structural facts add up to exactly-once over all runtime states is argued in DESIGN.md, not machine-checked.",
         ref="DESIGN.md §4 C02",
         note=TB + "; decides the named clauses, not the enumeration behaviour.",
@@ -122,7 +123,8 @@ CHECKS = {
              "ASCII regex prefixes incl. cached regexes, is_ascii, len tests, starts_with), span-shaped tokens are only built under the "
              "rank-order comparison that keeps RANKS[start..=end] and next().unwrap() in bounds (and the expansion is checked to use exactly "
              "those arguments), every RankRange/SuitRange construction has ordered bounds, regex literals are inside the analysed subset, "
-             "checked gets, distinct-card guards (a combo of one card twice would crash the evaluator); the remaining sites carry audited "
+             "checked gets, distinct-card guards (a combo of one card twice would crash the evaluator), the evaluator's emptiness guard "
+             "(a text whose tokens are all rejected parses to an empty range; C08's rule evaluated here); the remaining sites carry audited "
              "invariants keyed by owner/kind/operand class. Thorough tier repeats the audit with overflow checks off and cross-references "
              "clippy's restriction lints.",
         ref="DESIGN.md §4 C09, §3.4",
